@@ -135,7 +135,6 @@ def main():
     validateargs(args, log)
     exit_state = 0
     consumed_stdin = False
-    yaml = Parsers.get_yaml_editor()
 
     for yaml_file in args.yaml_files:
         if yaml_file.strip() == '-':
@@ -145,7 +144,10 @@ def main():
             "yaml_merge::main:  Processing file, {}".format(
                 "STDIN" if yaml_file.strip() == "-" else yaml_file))
 
-        proc_state = process_file(log, yaml, yaml_file)
+        # Each file gets its own parser because a failed load can leave
+        # state (like Anchor names) behind in a reused parser, causing the
+        # next -- perfectly valid -- file to be reported as invalid.
+        proc_state = process_file(log, Parsers.get_yaml_editor(), yaml_file)
 
         if proc_state != 0:
             exit_state = proc_state
@@ -156,7 +158,7 @@ def main():
         and not args.nostdin
         and not sys.stdin.isatty()
     ):
-        exit_state = process_file(log, yaml, "-")
+        exit_state = process_file(log, Parsers.get_yaml_editor(), "-")
 
     sys.exit(exit_state)
 
